@@ -44,15 +44,69 @@ def _without_docstring(body):
     return body
 
 
+def _aliases(fn):
+    """local names bound exactly once in the method, to `self.register` / `self.num`
+    (plain `a = self.register` or pairwise tuple assignment)"""
+    stores = {}
+    for n in ast.walk(fn):
+        if isinstance(n, ast.Name) and isinstance(n.ctx, (ast.Store, ast.Del)):
+            stores[n.id] = stores.get(n.id, 0) + 1
+    for a in fn.args.args + fn.args.kwonlyargs + fn.args.posonlyargs:
+        stores[a.arg] = stores.get(a.arg, 0) + 1
+    reg, num = set(), set()
+    for n in ast.walk(fn):
+        if not isinstance(n, ast.Assign) or len(n.targets) != 1:
+            continue
+        tg, val = n.targets[0], n.value
+        pairs = []
+        if isinstance(tg, ast.Name):
+            pairs = [(tg, val)]
+        elif isinstance(tg, ast.Tuple) and isinstance(val, ast.Tuple) and len(tg.elts) == len(val.elts):
+            pairs = [(t, v) for t, v in zip(tg.elts, val.elts) if isinstance(t, ast.Name)]
+        for t, v in pairs:
+            if stores.get(t.id) != 1:
+                continue
+            if _is_self_attr(v, "register"):
+                reg.add(t.id)
+            elif _is_self_attr(v, "num"):
+                num.add(t.id)
+    return reg, num
+
+
+def _assigned_self_attrs(fn):
+    out = []
+    for n in ast.walk(fn):
+        tg = []
+        if isinstance(n, ast.Assign):
+            tg = n.targets
+        elif isinstance(n, (ast.AugAssign, ast.AnnAssign)):
+            tg = [n.target]
+        elif isinstance(n, ast.Delete):
+            tg = n.targets
+        for t in tg:
+            for x in ast.walk(t):
+                if _is_self_attr(x):
+                    out.append(x.attr)
+    return sorted(set(out))
+
+
 def _register_uses(fn):
-    """-> (engine calls [(name, args, node)], other calls on the register, unrecognised uses)"""
+    """-> (engine calls [(name, args, node)], other calls on the register, unrecognised uses, is_num predicate)"""
     parents = {}
     for p in ast.walk(fn):
         for c in ast.iter_child_nodes(p):
             parents[c] = p
+    reg_alias, num_alias = _aliases(fn)
+
+    def is_reg(n):
+        return _is_self_attr(n, "register") or (isinstance(n, ast.Name) and isinstance(n.ctx, ast.Load) and n.id in reg_alias)
+
+    def is_num(n):
+        return _is_self_attr(n, "num") or (isinstance(n, ast.Name) and isinstance(n.ctx, ast.Load) and n.id in num_alias)
+
     calls, other_calls, bad = [], [], 0
     for n in ast.walk(fn):
-        if not _is_self_attr(n, "register"):
+        if not is_reg(n):
             continue
         par = parents.get(n)
         if isinstance(par, ast.Attribute) and par.value is n:
@@ -65,9 +119,21 @@ def _register_uses(fn):
                 bad += 1          # bound method taken without calling it, unknown attribute, store
         elif isinstance(par, ast.Return) and par.value is n:
             pass                  # remote_get_register hands the engine out; no state-acting call here
+        elif isinstance(par, ast.Assign) and par.value is n and len(par.targets) == 1 \
+                and isinstance(par.targets[0], ast.Name) and par.targets[0].id in reg_alias:
+            pass                  # the single binding of a recognised alias
+        elif isinstance(par, ast.Tuple) and isinstance(parents.get(par), ast.Assign) and parents[par].value is par \
+                and isinstance(parents[par].targets[0], ast.Tuple) \
+                and len(parents[par].targets[0].elts) == len(par.elts) \
+                and isinstance(parents[par].targets[0].elts[par.elts.index(n)], ast.Name) \
+                and parents[par].targets[0].elts[par.elts.index(n)].id in reg_alias:
+            pass                  # same, inside a pairwise tuple assignment
         else:
-            bad += 1              # aliased / passed on
-    return calls, other_calls, bad
+            bad += 1              # passed on / stored elsewhere
+    # rebinding the attributes the table talks about makes `self.num` / `self.register` ambiguous
+    if any(a in ("num", "register") for a in _assigned_self_attrs(fn)):
+        bad += 1
+    return calls, other_calls, bad, is_num
 
 
 def _noise_sites(fn):
@@ -100,7 +166,7 @@ def extract(src_text):
     for fn in cls.body:
         if not isinstance(fn, (ast.FunctionDef, ast.AsyncFunctionDef)):
             continue
-        calls, _other, bad = _register_uses(fn)
+        calls, _other, bad, is_num = _register_uses(fn)
         if fn.name == NOISE:
             body = _without_docstring(fn.body)
             guard = False
@@ -109,22 +175,12 @@ def extract(src_text):
                 guard = (isinstance(t, ast.UnaryOp) and isinstance(t.op, ast.Not) and _is_self_attr(t.operand, "noisy")
                          and bool(body[0].body) and isinstance(body[0].body[0], ast.Return)
                          and body[0].body[0].value is None and not body[0].orelse)
-            assigns = []
-            for n in ast.walk(fn):
-                tg = []
-                if isinstance(n, ast.Assign):
-                    tg = n.targets
-                elif isinstance(n, (ast.AugAssign, ast.AnnAssign)):
-                    tg = [n.target]
-                for t in tg:
-                    for x in ast.walk(t):
-                        if _is_self_attr(x):
-                            assigns.append(x.attr)
+            assigns = _assigned_self_attrs(fn)
             noise = {
                 "line": fn.lineno,
                 "guardFirst": guard,
-                "engineCalls": [(name, len(args) == 1 and _is_self_attr(args[0], "num")) for name, args, _ in calls],
-                "assigns": sorted(set(assigns)),
+                "engineCalls": [(name, len(args) == 1 and is_num(args[0])) for name, args, _ in calls],
+                "assigns": assigns,
                 "unrecognised": bad > 0,
             }
             continue
@@ -138,7 +194,7 @@ def extract(src_text):
             "line": fn.lineno,
             "noiseFirst": noise_first,
             "noiseCalls": total,
-            "engineCalls": [(name, bool(args) and _is_self_attr(args[0], "num")) for name, args, _ in calls],
+            "engineCalls": [(name, bool(args) and is_num(args[0])) for name, args, _ in calls],
             "unrecognised": bad > 0,
         })
     return {"ops": ops, "noise": noise}
